@@ -233,8 +233,13 @@ class FuncV(Value):
 
 
 class LambdaV(Value):
-    def __init__(self, node, frame) -> None:
+    def __init__(self, node, frame, defaults=None) -> None:
         self.node, self.frame = node, frame
+        self.defaults = defaults or {}       # parameter -> value, evaluated where the lambda was written
+
+    def __repr__(self) -> str:
+        import ast as _ast
+        return f"<lambda {_ast.unparse(self.node)[:80]}>"
 
 
 class EnumV(Value):
